@@ -437,6 +437,7 @@ class Flattener:
                 self.inlined.append("<generator helpers>")
         except Exception:
             pass
+        propagate_constants(self.repo, self.f, fn)
         if self.inlined:
             specialise(fn)
         ast.fix_missing_locations(fn)
@@ -446,6 +447,43 @@ class Flattener:
         flat.inlined = list(dict.fromkeys(self.inlined))
         flat.inlined_bodies = self.bodies
         return flat
+
+
+FoldedConstant = type("Constant", (ast.Constant,), {"const_name": "", "__doc__": "a module-level literal constant put in place of its name"})
+
+
+def propagate_constants(repo: Repo, f: FuncInfo, fn: ast.FunctionDef) -> None:
+    """names of module-level literal constants (str / int / float / bool / None, bound once) are replaced by the literal (the node
+    remembers the name in `const_name`): `ROOT_TYPE_NAME` and "object" are the same thing to every rule"""
+    local: Set[str] = set()
+    for n in ast.walk(fn):
+        if isinstance(n, ast.Name) and isinstance(n.ctx, (ast.Store, ast.Del)):
+            local.add(n.id)
+        elif isinstance(n, ast.arg):
+            local.add(n.arg)
+        elif isinstance(n, ast.ExceptHandler) and n.name:
+            local.add(n.name)
+        elif isinstance(n, (ast.Global, ast.Nonlocal)):
+            local |= set(n.names)
+
+    class T(ast.NodeTransformer):
+        def visit_Name(self, n):
+            if not isinstance(n.ctx, ast.Load) or n.id in local:
+                return n
+            try:
+                r = repo.lookup(f.mod.name, n.id)
+            except Exception:
+                return n
+            if not r or r[0] != "const" or not isinstance(r[1], ast.Constant):
+                return n
+            v = r[1].value
+            if not (v is None or isinstance(v, (str, int, float, bool))):
+                return n
+            c = FoldedConstant(value=v)
+            c.const_name = n.id
+            return ast.copy_location(c, n)
+
+    T().visit(fn)
 
 
 def specialise(fn: ast.FunctionDef) -> None:
